@@ -339,6 +339,9 @@ func inflate0(flatCoords []float64, offset, end, stride int) Coord {
 }
 
 func inflate1(flatCoords []float64, offset, end, stride int) []Coord {
+	if stride == 0 {
+		return []Coord{}
+	}
 	coords1 := make([]Coord, (end-offset)/stride)
 	for i := range coords1 {
 		coords1[i] = inflate0(flatCoords, offset, offset+stride, stride)
